@@ -182,6 +182,8 @@ def judge_tcp(case, res, dec, pdec):
     if res is None:
         return dict(what="no result from the TCP client")
     st = res["status"]
+    if st == "SKIPPED":
+        return None
     if st == "CONNFAIL":
         return dict(what="could not connect: the server process is gone", status=st)
     if st.endswith("-AFTER-SHUTDOWN"):
@@ -206,8 +208,8 @@ def judge_tcp(case, res, dec, pdec):
     return None
 
 
-def run_and_judge(server, d, cases, tag):
-    res, err = resplib.run_tcp(server, d, cases, tag=tag)
+def run_and_judge(server, d, cases, tag, selfclose_ms=20000):
+    res, err = resplib.run_tcp(server, d, cases, tag=tag, selfclose_ms=selfclose_ms)
     if err:
         raise RuntimeError(err)
     dec = resplib.model_decode(d, [(c.id, res[c.id]["rx"]) for c in cases if c.id in res], tag=tag + "d")
@@ -287,7 +289,7 @@ def tcp_part(ctx, d, inproc_stats):
         server.stop()
 
 
-def one_tcp(d, server, stream, sizes, registered, marker_key, st):
+def one_tcp(d, server, stream, sizes, registered, marker_key, st, selfclose_ms=20000):
     """run one stream on a live server; returns (verdict or None, usable)"""
     if not server.alive():
         server.start()
@@ -296,7 +298,9 @@ def one_tcp(d, server, stream, sizes, registered, marker_key, st):
     c = plan_case("q", stream, sizes, 0, mev, registered, marker_key)
     if c is None:
         return None, False
-    _, v = run_and_judge(server, d, [c], "q")
+    if marker_key is not None:     # start from an empty list whatever earlier runs left behind
+        resplib.run_tcp(server, d, [resplib.TcpCase("del", G.encode_cmd([b"DEL", marker_key]))], tag="qdel")
+    _, v = run_and_judge(server, d, [c], "q", selfclose_ms)
     if not server.alive():
         return dict(what="the server process died", events_model=mev[0][:500]), True
     return v["q"], True
@@ -304,16 +308,17 @@ def one_tcp(d, server, stream, sizes, registered, marker_key, st):
 
 def shrink_tcp(d, server, failing, registered, st):
     key = failing.get("marker_key")
+    what = failing.get("what")
 
-    def bad(s):
+    def bad(s):     # still fails, and in the same way
         if not s:
             return False
         for sizes in ("one", "bytes"):
-            v, _ = one_tcp(d, server, s, sizes, registered, key, st)
-            if v:
+            v, _ = one_tcp(d, server, s, sizes, registered, key, st, selfclose_ms=1500)
+            if v and v.get("what") == what:
                 return True
         return False
-    small = resplib.ddmin(failing["stream"], bad, budget=90)
+    small = resplib.ddmin(failing["stream"], bad, budget=40)
     for sizes in ("one", "bytes"):
         v, _ = one_tcp(d, server, small, sizes, registered, key, st)
         if v:
